@@ -752,8 +752,15 @@ def c11(tier, rep):
     op = fo.capture_programs(tier)
     fr4 = e2.run_family("c11options", op, extra_header=fp.HEADER + fo.PRE)
     judge_family(rep, fr4)
+    # two-digit branch and action indices: a capture on every action of 11/12 branches x 11/12 actions (an order taken from the
+    # generated names — `__ew0_10_0` < `__ew0_1_0` — is not the branch-then-position order)
+    from . import fam_names as fn
+
+    dn = [q for q in fn.dense_programs(tier) if q.id.startswith(("dense/join/", "dense/try_join/", "resmix/", "dense/fold12"))]
+    fr5 = e2.run_family("c11dense", dn, extra_header=fn.NEST_HEADER)
+    judge_family(rep, fr5)
     rep.set("operators_with_captured_operands", sorted(ops))
-    rep.set("rule", "(d) capture-rich depth profiles behind custom_joiner / lazy_branches(true) (the lazy sequential joiner runs the branch closures in reverse order, so a capture left inside its branch closure is seen after another branch's expressions); (a) every typed chain of length <= 2 whose expression operands (both operands of fold/try_fold) and initial value are ALL written as block captures, with ~ before none / the last / every operator, in 2- and 3-branch join! programs next to capture-dense Result branches (a distinct-constant capture on every action, Process and Err arms, mirrored (branch, action) positions); (b) depth profiles n<=3,d<=3 with a capture in every step of every branch in all 8 macro kinds; (c) captures inside wrappers (C02 family); oracle: value and trace equal the reference, which evaluates every capture once, after the previous step, before any branch expression of its step, in branch-then-position order")
+    rep.set("rule", "(e) capture-dense grids with two-digit branch / action indices (2x11 .. 12x12, fold captures in 12 branches); (d) capture-rich depth profiles behind custom_joiner / lazy_branches(true) (the lazy sequential joiner runs the branch closures in reverse order, so a capture left inside its branch closure is seen after another branch's expressions); (a) every typed chain of length <= 2 whose expression operands (both operands of fold/try_fold) and initial value are ALL written as block captures, with ~ before none / the last / every operator, in 2- and 3-branch join! programs next to capture-dense Result branches (a distinct-constant capture on every action, Process and Err arms, mirrored (branch, action) positions); (b) depth profiles n<=3,d<=3 with a capture in every step of every branch in all 8 macro kinds; (c) captures inside wrappers (C02 family); oracle: value and trace equal the reference, which evaluates every capture once, after the previous step, before any branch expression of its step, in branch-then-position order")
     sample_family(rep, progs, fr)
 
 
